@@ -187,3 +187,12 @@ func (c *Ctx) expect(what string, got, want int, fn *ssa.Function) bool {
 	}
 	return true
 }
+
+func firstPos(b *ssa.BasicBlock) token.Pos {
+	for _, in := range b.Instrs {
+		if in.Pos().IsValid() {
+			return in.Pos()
+		}
+	}
+	return token.NoPos
+}
